@@ -274,6 +274,11 @@ static std::string handle(const std::vector<std::string>& a) {
     { // sized flash pointer (mock: address shifted by 42)
       const __FlashStringHelper* fp = reinterpret_cast<const __FlashStringHelper*>(convertPtrToFlash(exact));
       RUN("flashsize", fp, n) }
+    if (!json && res.rfind("ptrsize=Ok:", 0) == 0) {
+      // pointers without a size: legal for a complete message only (the reader has no end to respect) — it must read exactly the message
+      RUN("unboundedPtr", (const char*)exact)
+      { const __FlashStringHelper* fp = reinterpret_cast<const __FlashStringHelper*>(convertPtrToFlash(exact)); RUN("unboundedFlash", fp) }
+    }
     if (json) {
       // zero-terminated kinds see the bytes up to the first NUL; block = content + terminator exactly
       size_t z = input.find('\0');
